@@ -142,6 +142,36 @@ theorem empty_bqm_promotion :
      | .ok (.mdl m) => m.isQM && (m.vars.map fun v => decide (v.info.vt = .spin)) == [true] | _ => false) = true := by
   refine ⟨?_, ?_, ?_⟩ <;> decide +kernel
 
+/-- **comparisons** (`dimod.sym`): `e <= q`, `e >= q`, `e == q` and the reflected `q <= e`, `q >= e`, `q == e`
+    with a number build `Le/Ge/Eq(lhs, rhs)` whose left-hand side is the built model itself (nothing is moved
+    across) and whose right-hand side is the number.  At every sample respecting the leaves' domains the
+    constraint's activity `lhs(x) − rhs` is the operands' `e(x) − q`, and the comparison object holds exactly
+    when the written comparison holds between the numbers — reflection turns `q <= e` into `Ge(e, q)`. -/
+theorem comparison_activity (c : SymCmp) (k : Cmp) (x : Label → Rat) (h : buildCmp c = .ok (some k))
+    (hx : ∀ l kind, c.expr.HasLeaf l kind → InDom kind (x l)) :
+    k.lhs.eval x - k.rhs = c.expr.eval x - c.num ∧ (k.holds x ↔ c.holds x) := by
+  unfold buildCmp at h
+  cases hb : build c.expr with
+  | error e => rw [hb] at h; simp at h
+  | ok v =>
+    rw [hb] at h
+    cases v with
+    | num q => simp at h
+    | view o m => simp only at h; split at h <;> simp at h
+    | mdl m =>
+      simp only [Except.ok.injEq, Option.some.injEq] at h
+      subst h
+      have he : m.eval x = c.expr.eval x := build_eval c.expr (.mdl m) x hb hx
+      refine ⟨by simp only [he], ?_⟩
+      cases c <;> simp only [Cmp.holds, SymCmp.sense, SymCmp.holds, SymCmp.num, SymCmp.expr] at he ⊢ <;> rw [he] <;>
+        first | exact Iff.rfl | exact eq_comm
+
+/-- an ordering between two models, or with an expression view, is not defined (TypeError): the model
+    has no node for it; a view compared with `<=`/`>=` is refused -/
+theorem comparison_view_refused (c : SymCmp) (o : Bool) (m : Model) (h : build c.expr = .ok (.view o m)) (hne : c.isEq = false) :
+    buildCmp c = .error .type := by
+  simp [buildCmp, h, hne]
+
 /-! ## non-vacuity: concrete trees evaluated by the model -/
 
 /-- `(2x + 1) * (x + 3y)` over binary `x, y` is `3x + 3y + 6xy` -/
